@@ -48,19 +48,8 @@ enum { MAXC = 512, MAXCLS = 96, MAXMET = 32 };
 // clang's UBSan runtime calls this weak hook for every report (recover mode); the report is turned into a
 // failure of the case that was running on this thread. Reports are de-duplicated per source location by the
 // runtime, so only the first case reaching a site is recorded — one per root cause.
-extern "C" void __ubsan_get_current_report_data(const char** kind, const char** msg, const char** file, unsigned* line, unsigned* col, char** addr);
 struct UbsanHit { bool hit = false; char key[256]; char msg[512]; };
-inline thread_local UbsanHit tl_ubsan;
-extern "C" __attribute__((weak)) void __ubsan_on_report(void) {
-	const char *kind = "", *msg = "", *file = ""; unsigned line = 0, col = 0; char* addr = nullptr;
-	__ubsan_get_current_report_data(&kind, &msg, &file, &line, &col, &addr);
-	if (tl_ubsan.hit) return;
-	tl_ubsan.hit = true;
-	const char* f = file ? strstr(file, "glm/") : nullptr;
-	const char* g = f; while (g && strstr(g + 1, "glm/")) g = strstr(g + 1, "glm/");
-	snprintf(tl_ubsan.key, sizeof tl_ubsan.key, "ubsan/%s/%s", kind ? kind : "?", g ? g : (file ? file : "?"));
-	snprintf(tl_ubsan.msg, sizeof tl_ubsan.msg, "%s at %s:%u:%u", msg ? msg : "", file ? file : "?", line, col);
-}
+inline thread_local UbsanHit tl_ubsan;  // filled by the strong __ubsan_on_report in engine/ubsan_hook.cpp (linked into every sanitizer stage)
 #endif
 
 struct Failure {
@@ -274,7 +263,6 @@ struct Runner {
 			return run_case(t, cand, tier, key, nullptr, nullptr, nullptr, user);
 		};
 		if (t.domain) return ch;                      // sweep: the index is the case
-		if (key.compare(0, 6, "ubsan/") == 0) return ch;  // the runtime reports each site once per process
 		bool progress = true;
 		while (progress && budget > 0) {
 			progress = false;
@@ -316,6 +304,7 @@ struct Runner {
 		if (t.domain) {
 			stride = tier ? t.thorough_stride : t.quick_stride;
 			if (stride < 1) stride = 1;
+			if (scale < 1.0) { uint64_t s2 = (uint64_t)((double)stride / scale); if (s2 > stride) stride = s2; }  // scaled-down runs (sanitizer builds) subsample sweeps
 			ncases = (t.domain + stride - 1) / stride;
 			R.exhaustive = (stride == 1);
 		} else {
@@ -495,7 +484,8 @@ static inline int pbt_main(int argc, char** argv, const char* property_id, void*
 		js += "\"classes\": {";
 		for (int i = 0; i < r.st.ncls; ++i) { snprintf(b, sizeof b, "%s\"%s\": %" PRIu64, i ? ", " : "", jesc(r.st.cls_name[i]).c_str(), r.st.cls_cnt[i]); js += b; }
 		js += "}, \"metrics\": {";
-		for (int i = 0; i < r.st.nmet; ++i) { snprintf(b, sizeof b, "%s\"%s\": %.6g", i ? ", " : "", jesc(r.st.met_name[i]).c_str(), r.st.met_max[i]); js += b; }
+		for (int i = 0; i < r.st.nmet; ++i) { double mv = r.st.met_max[i]; if (!(mv == mv)) mv = 0; if (mv > 1e300) mv = 1e300; if (mv < -1e300) mv = -1e300;  // JSON has no inf/nan
+			snprintf(b, sizeof b, "%s\"%s\": %.6g", i ? ", " : "", jesc(r.st.met_name[i]).c_str(), mv); js += b; }
 		js += "}, \"samples\": [";
 		for (size_t i = 0; i < r.samples.size(); ++i) js += std::string(i ? ", " : "") + "\"" + jesc(r.samples[i]) + "\"";
 		js += "], \"failures\": [";
